@@ -125,6 +125,13 @@ def data(desc, rng):
 
 
 NARROW = ('int8', 'int16', 'int32', 'uint8', 'uint16')
+LAYOUTS = ('strided', 'readonly')
+
+
+def layout_variant(d, i, period=7):
+    """Every `period`-th sampled case hands the record over as a non-contiguous view or as a read-only array."""
+    if not d.get('variant') and i % period in (5, 6) and not d.get('list') and d.get('cont', 'array') == 'array':
+        d['variant'] = LAYOUTS[i % period - 5]
 
 
 def variant(x, v):
@@ -134,6 +141,17 @@ def variant(x, v):
         return x
     if v == 'zimag':
         return np.asarray(x).real.astype(complex)
+    if v == 'strided':
+        # the same samples as every second element of a longer buffer (a non-contiguous view)
+        x = np.asarray(x)
+        big = np.empty(2 * len(x), dtype=x.dtype)
+        big[::2] = x
+        big[1::2] = 7
+        return big[::2]
+    if v == 'readonly':
+        x = np.array(x, copy=True)
+        x.flags.writeable = False
+        return x
     if v in NARROW:
         if np.iscomplexobj(x):
             return x
